@@ -50,12 +50,17 @@ deriving DecidableEq, Repr
 structure Cfg where
   keepFull : Bool
   flt : Nat → Nat                -- applyFilter: object ↦ filter result (jq / FilterFunc; opaque)
-  chk : Nat → Nat                -- checksum of the filter result
+  chk : Nat → Nat                -- checksum (md5 of the JSON text; opaque)
+  hasFilter : Bool := true       -- jqFilter != "" or FilterFunc != nil
   fires : EvType → Bool := fun _ => true   -- shouldFireEvent
 
-/-- `applyFilter` followed by `RemoveFullObject` unless `KeepFullObjectsInMemory`. -/
+/-- `applyFilter` (with a filter: result + checksum of the result; without: no result (0 = nil),
+checksum of the whole object) followed by `RemoveFullObject` unless `KeepFullObjectsInMemory`. -/
 def mkEntry (cfg : Cfg) (o : Obj) : Entry :=
-  let e : Entry := { key := o.key, obj := some o.content, fr := cfg.flt o.content, sum := cfg.chk (cfg.flt o.content) }
+  let e : Entry :=
+    if cfg.hasFilter then
+      { key := o.key, obj := some o.content, fr := cfg.flt o.content, sum := cfg.chk (cfg.flt o.content) }
+    else { key := o.key, obj := some o.content, fr := 0, sum := cfg.chk o.content }
   if !cfg.keepFull then { e with obj := none } else e
 
 /-! ### Go maps keyed by the resource id: association lists with the map's semantics -/
@@ -352,5 +357,165 @@ replays `Added` for every matching object of the shared informer's store, then t
 def informerLife (cfg : Cfg) (p : Obj → Bool) (c0 : Cluster) (gap later : List COp) : Cache :=
   let c1 := applyOps c0 gap
   runInformer cfg (c0.filter p) (((c1.filter p).map (fun o => (EvType.added, o))) ++ watchAll p c1 later)
+
+/-! ### A whole monitor against a changing cluster (executable: the driver runs this) -/
+
+/-- The selectors of one binding (`MonitorConfig`). Label selectors of the generated bindings match
+label value 1; the field selector is `metadata.name != n`. -/
+structure MonCfg where
+  cfg : Cfg
+  kind : Nat
+  names : List Nat := []          -- nameSelector.matchNames as configured (duplicates possible)
+  nss : List Nat := []            -- namespace.nameSelector.matchNames as configured
+  nsSel : Bool := false           -- namespace.labelSelector present
+  lblSel : Bool := false          -- labelSelector present
+  exclName : Option Nat := none   -- fieldSelector metadata.name != n
+
+structure World where
+  objs : Cluster := []
+  nss : List (Nat × Nat) := []    -- existing namespaces with their label value
+
+/-- `names()` after the repair: each name once. -/
+def MonCfg.namesEff (mc : MonCfg) : List Nat := dedupNames mc.names
+
+/-- `namespaces()`: nil when namespace.labelSelector is set, `[""]` when no names, else the
+(de-duplicated, after the repair) names. -/
+def MonCfg.namespaces (mc : MonCfg) : List (Option Nat) :=
+  if mc.nsSel then [] else if mc.nss.isEmpty then [none] else (dedupNames mc.nss).map some
+
+/-- what the API server lists / watches for one informer of this binding -/
+def MonCfg.pred (mc : MonCfg) (ns : Option Nat) (nm : Option Nat) (o : Obj) : Bool :=
+  o.key.kind == mc.kind &&
+  (match ns with | none => true | some n => o.key.ns == n) &&
+  (match nm with | none => true | some n => o.key.name == n) &&
+  (!mc.lblSel || o.lbl == 1) &&
+  (match mc.exclName with | none => true | some n => o.key.name != n)
+
+def MonCfg.list (mc : MonCfg) (w : World) (ns nm : Option Nat) : List Obj := w.objs.filter (mc.pred ns nm)
+
+def nsMatches (mc : MonCfg) (w : World) (n : Nat) : Bool :=
+  mc.nsSel && (w.nss.any (fun p => p.1 == n && p.2 == 1))
+
+/-- `CreateInformers` (the namespace informer lists the matching namespaces itself). -/
+def createInformers (mc : MonCfg) (w : World) : Monitor :=
+  let nsl := mc.namespaces
+  let static := (nsl.map (fun ns => createForNs mc.cfg mc.namesEff (mc.list w) ns)).flatten
+  let staticNs := nsl.filterMap id
+  let existing := if mc.nsSel then (w.nss.filter (fun p => p.2 == 1)).map (·.1) else []
+  let varying := (existing.filter (fun n => !staticNs.contains n)).map
+    (fun n => (n, createForNs mc.cfg mc.namesEff (mc.list w) (some n)))
+  { static := static, varying := varying, staticNs := staticNs }
+
+def feed (mc : MonCfg) (evsOf : Informer → List WatchEv) (i : Informer) : Informer :=
+  if i.started then { i with cache := (evsOf i).foldl (fun c ev => (handleWatch mc.cfg c ev.1 ev.2).1) i.cache }
+  else i
+
+def Monitor.mapInformers (m : Monitor) (f : Informer → Informer) : Monitor :=
+  { m with static := m.static.map f, varying := m.varying.map (fun p => (p.1, p.2.map f)) }
+
+/-- `Start`: every informer registers with its shared informer and is replayed `Added` for the
+matching objects of the store; the namespace informer starts and reports the matching namespaces. -/
+def startMonitor (mc : MonCfg) (w : World) (m : Monitor) : Monitor :=
+  let m := m.mapInformers (fun i =>
+    feed mc (fun i => (mc.list w i.ns i.name).map (fun o => (EvType.added, o))) { i with started := true })
+  let existing := if mc.nsSel then (w.nss.filter (fun p => p.2 == 1)).map (·.1) else []
+  existing.foldl (nsAdded mc.cfg mc.namesEff (mc.list w)) m
+
+/-- one cluster operation on objects, delivered to every started informer -/
+def objStep (mc : MonCfg) (w : World) (m : Monitor) (op : COp) : World × Monitor :=
+  ({ w with objs := applyOp w.objs op },
+   m.mapInformers (feed mc (fun i => watchOf (mc.pred i.ns i.name) w.objs op)))
+
+/-- a namespace is created / relabelled (`lbl`) or deleted (`none`); the namespace informer (if
+started) calls the add / delete callback on a change of "matches the label selector" -/
+def nsStep (mc : MonCfg) (started : Bool) (w : World) (m : Monitor) (n : Nat) (lbl : Option Nat) : World × Monitor :=
+  let was := nsMatches mc w n
+  let nss' := match lbl with
+    | some l => (w.nss.filter (·.1 != n)) ++ [(n, l)]
+    | none => w.nss.filter (·.1 != n)
+  let w' := { w with nss := nss' }
+  let now := nsMatches mc w' n
+  let m' := if !started || !mc.nsSel then m
+    else if !was && now then nsAdded mc.cfg mc.namesEff (mc.list w') m n
+    else if was && !now then nsDeleted m n
+    else m
+  (w', m')
+
+/-- **Spec**: the objects that currently match the binding — kind, namespaces (the named ones, or
+the existing ones matching the namespace label selector, or all), names, label and field selector. -/
+def specMatching (mc : MonCfg) (w : World) : List Obj :=
+  w.objs.filter (fun o =>
+    mc.pred none none o &&
+    (mc.names.isEmpty || mc.names.contains o.key.name) &&
+    (if mc.nsSel then nsMatches mc w o.key.ns
+     else mc.nss.isEmpty || mc.nss.contains o.key.ns))
+
+/-- **Spec-level predicate of C02 for one observed snapshot** (what the `oracle snap` line
+evaluates on the implementation's output): exactly the matching objects, each once, in key order,
+each carrying the filter result (and the full object iff kept) of the matching object. -/
+def snapshotExact (ridOf : Key → Nat) (mc : MonCfg) (w : World) (got : List Entry) : Bool :=
+  let want := specMatching mc w
+  -- same set of keys, each once
+  got.length == want.length &&
+  want.all (fun o => got.any (fun e => e.key == o.key)) &&
+  -- order: strictly increasing in the documented key
+  (got.zip got.tail).all (fun p => lessGo ridOf p.1 p.2) &&
+  -- every element is the filtered image of the matching object (the checksum is not observed)
+  got.all (fun e => want.any (fun o =>
+    let x := mkEntry mc.cfg o
+    e.key == x.key && e.obj == x.obj && e.fr == x.fr))
+
+/-! ### Concurrent change during one `Snapshot()` call -/
+
+/-- One `Snapshot()` call reads the informers one after the other while their watch threads go on.
+`pre i` = events informer `i` had handled when the call read it (a prefix of `evs i`). -/
+def concurrentRead (cfg : Cfg) (inits : List (List Obj)) (evs : List (List WatchEv)) (cut : List Nat) : List (List Entry) :=
+  (inits.zip (evs.zip cut)).map (fun p => runInformer cfg p.1 (p.2.1.take p.2.2))
+
+/-! ### Spec-level predicate for one observed execution (`oracle exec`) -/
+
+/-- What the harness saw for one context after `UpdateSnapshots`: binding, type, Synchronization?,
+`objects`, `snapshots`. Snapshots are compared by identity of their rendering. -/
+structure ExecObs where
+  binding : Nat
+  btype : BType
+  isSync : Bool
+  objects : Snap
+  snapshots : List (Nat × Snap)
+
+/-- Declared bindings per type. -/
+structure HookDecl where
+  kube : List Decl := []
+  sched : List Decl := []
+  validating : List Decl := []
+  mutating : List Decl := []
+  conversion : List Decl := []
+
+def HookDecl.ofType (h : HookDecl) : BType → List Decl
+  | .kubernetes => h.kube | .schedule => h.sched | .validating => h.validating
+  | .mutating => h.mutating | .conversion => h.conversion | .other => []
+
+/-- config loading: every binding's include list becomes `effectiveInclude` -/
+def HookDecl.effective (h : HookDecl) : HookBindings :=
+  let f := fun (l : List Decl) => l.map (fun d => (d.name, effectiveInclude h.kube d))
+  { kube := f h.kube, sched := f h.sched, validating := f h.validating, mutating := f h.mutating,
+    conversion := f h.conversion }
+
+/-- **The property for one execution**: (1) the keys of `snapshots` of every context are exactly
+the declared includeSnapshotsFrom of its binding plus the kubernetes bindings of its group, each
+once; (2) a binding's snapshot is the same list wherever it appears in the execution, including as
+the `objects` of its Synchronization context. -/
+def execExact (h : HookDecl) (obs : List ExecObs) : Bool :=
+  let all : List (Nat × Snap) :=
+    (obs.map (·.snapshots)).flatten ++
+      (obs.filter (fun o => o.btype == .kubernetes && o.isSync)).map (fun o => (o.binding, o.objects))
+  obs.all (fun o =>
+    let want := match (h.ofType o.btype).find? (·.name == o.binding) with
+      | some d => d.incl ++ (if d.group != 0 then groupNames h.kube d.group else [])
+      | none => []
+    let keys := o.snapshots.map (·.1)
+    keys.all (want.contains ·) && want.all (keys.contains ·) &&
+    (keys.zipIdx.all (fun p => (keys.take p.2).all (· != p.1)))) &&
+  all.all (fun p => all.all (fun q => p.1 != q.1 || p.2 == q.2))
 
 end ShellOp.Snapshot
